@@ -16,6 +16,7 @@
 
 #include <cstdio>
 #include <cstring>
+#include <ctime>
 
 namespace mint {
 
@@ -153,6 +154,34 @@ static X509_NAME *mk_name(const Name &n)
     return x;
 }
 
+// epoch -> RFC 5280 encoding chosen by libcrypto, or the given characters verbatim under the given tag (no validation on purpose)
+static void set_time(ASN1_TIME *t, int enc, const std::string &str, int64_t epoch)
+{
+    if (enc == T_AUTO)
+    {
+        ASN1_TIME_set(t, (time_t) epoch);
+        return;
+    }
+    ASN1_STRING_set(t, str.data(), (int) str.size());
+    t->type = enc == T_UTC ? V_ASN1_UTCTIME : V_ASN1_GENERALIZEDTIME;
+}
+
+bool time_to_epoch(int enc, const std::string &str, int64_t *epoch)
+{
+    ASN1_TIME *t = ASN1_TIME_new();
+    struct tm tm;
+    bool ok = false;
+    set_time(t, enc == T_UTC ? T_UTC : T_GEN, str, 0);
+    memset(&tm, 0, sizeof tm);
+    if (ASN1_TIME_to_tm(t, &tm) == 1)
+    {
+        *epoch = (int64_t) timegm(&tm);
+        ok = true;
+    }
+    ASN1_TIME_free(t);
+    return ok;
+}
+
 static ASN1_INTEGER *mk_serial(const Bytes &s)
 {
     BIGNUM *bn = BN_bin2bn(s.data(), (int) s.size(), NULL);
@@ -233,8 +262,8 @@ bool mint_cert(const CertSpec &s, Minted &out, std::string *err)
     { ASN1_INTEGER *a = mk_serial(s.serial); X509_set_serialNumber(x, a); ASN1_INTEGER_free(a); }
     { X509_NAME *n = mk_name(s.subject); X509_set_subject_name(x, n); X509_NAME_free(n); }
     { X509_NAME *n = mk_name(s.issuer); X509_set_issuer_name(x, n); X509_NAME_free(n); }
-    ASN1_TIME_set(X509_getm_notBefore(x), (time_t) s.notBefore);
-    ASN1_TIME_set(X509_getm_notAfter(x), (time_t) s.notAfter);
+    set_time(X509_getm_notBefore(x), s.notBeforeEnc, s.notBeforeStr, s.notBefore);
+    set_time(X509_getm_notAfter(x), s.notAfterEnc, s.notAfterStr, s.notAfter);
     X509_set_pubkey(x, subj);
     if (s.version == 3)
     {
@@ -373,7 +402,7 @@ bool mint_crl(const CrlSpec &s, Bytes &der, std::string *err)
     {
         ASN1_TIME *t = ASN1_TIME_new();
         ASN1_TIME_set(t, (time_t) s.thisUpdate); X509_CRL_set1_lastUpdate(c, t);
-        ASN1_TIME_set(t, (time_t) s.nextUpdate); X509_CRL_set1_nextUpdate(c, t);
+        set_time(t, s.nextEnc, s.nextStr, s.nextUpdate); X509_CRL_set1_nextUpdate(c, t);
         for (auto &sn : s.revoked)
         {
             X509_REVOKED *r = X509_REVOKED_new();
